@@ -54,6 +54,15 @@ def add (b : DispatcherBuilder) (tag : SysTag) (name : String) (dep : List Strin
     else
       ({ b with stagesBuilder := b.stagesBuilder.insert dependencies id tag d }, none)
 
+/-- `has_system` (l.129) and `contains` (l.201): `map.contains_key(name)` -/
+def hasSystem (b : DispatcherBuilder) (name : String) : Bool := (lookup b.map name).isSome
+
+/-- `num_systems` (l.121): `map.len()` — the number of *named* systems accepted so far -/
+def numSystems (b : DispatcherBuilder) : Nat := b.map.length
+
+/-- `is_empty` (l.116): `map.is_empty()` -/
+def isEmpty (b : DispatcherBuilder) : Bool := b.map.isEmpty
+
 /-- the accessor `add_batch` computes (l.272-282): everything the inner builder accumulated plus
 the controller's declared data, sorted and de-duplicated -/
 def batchDecl (inner : DispatcherBuilder) (ctl : Decl) : Decl :=
